@@ -15,6 +15,7 @@ def run(prog, rec, tier):
     DriverRules(prog, rec, tier).reader()
     keep = RULES
     rec.obls = [o for o in rec.obls if o.rule in keep]
+    rec.instances = {k: v for k, v in rec.instances.items() if any(k.startswith(r) for r in RULES)}
     rec.extra['explanation'] = (
         'The option parser is interpreted over every sequence of options (getopt_long forks over the option table read from the code, with '
         'widening over the loop): at every successful return the fields the selected operation dereferences are non-NULL; every failure '
